@@ -12,11 +12,12 @@ K_NAME = ('K_locate (Locate.get_item / set_item / locate / eval_bt_slice / set_p
           'VectorContainer / BaseModel __getitem__ / __setitem__ / _locate_period_in_span / eval on the same span, key and operand)')
 RULE = ('exhaustive at the tier bound: every span of length 0..N (quick N=6 on VectorContainer, N=3 on BaseModel; thorough N=8 / 6) of each type '
         '(range with non-zero origin and steps 1, 2, -1; str list; tuple; mixed hashables incl. True/1.0-style equal labels, 2.5, a pair, None; '
-        'NumPy int / str arrays; pandas Index of ints / strs; PeriodIndex Y and Q; DatetimeIndex D and MS) x every label of the span plus '
+        'NumPy int / str arrays; pandas Index of ints / strs; PeriodIndex Y and Q (thorough: also M); DatetimeIndex D and MS) x every label of the span plus '
         'absent labels (same type, other type, a pair) x every (start, stop, step) over these labels, open ends and steps None,1,2,3,n,n+1 '
         '(plus 0 and negative steps on a subset) x get and set (scalar, one-element and full-length sequence, wrong-length sequence); '
         'pandas partial-string labels (slice-valued locations); spans with duplicate labels; positional and whole-series writes read back '
-        'through every path; backticked label slices through eval(). Non-trivial = span of at least 2 periods and (an exception path or at '
+        'through every path; backticked label slices through eval(); histories (the same labels looked up first on a sibling container where they '
+        'sit at other positions). Non-trivial = span of at least 2 periods and (an exception path or at '
         'least one element addressed); distinct by hash of the whole case.')
 TRUSTED = ['label encoding harness/locate_common.py (Python equality of labels = structural equality of the canonical code)',
            'pandas get_loc / __contains__ answers are recorded per case and handed to the model as its oracle table']
@@ -30,11 +31,29 @@ PER_Y0 = 30          # Period('2000', 'Y').ordinal
 PER_Q0 = 118         # Period('1999Q3', 'Q').ordinal
 TS_D0 = 946512000000000000      # 1999-12-30
 TS_M0 = 941414400000000000      # 1999-11-01
+PER_M0 = 358        # Period('1999-11', 'M').ordinal
 
 
 # --------------------------------------------------------------------------- implementation side
 def _make(case):
     import fsic
+    if case.get('prior'):
+        # history: the same lookups on a sibling container with ANOTHER span (same labels, other positions) come first;
+        # nothing of them may stick (e.g. a class-level cache of label -> position)
+        import sys
+        for k in [k for k in sys.modules if k == 'fsic' or k.startswith('fsic.')]:
+            del sys.modules[k]
+        import fsic
+        pspan = lc.build_span(case['prior'])
+        sib = fsic.core.containers.VectorContainer(pspan)
+        sib.add_variable('X', [float(30 + i) for i in range(len(pspan))])
+        for p in list(pspan):
+            try:
+                sib['X', p]
+                sib['X', p:p]
+                sib._locate_period_in_span(p)
+            except Exception:
+                pass
     span = lc.build_span(case['span'])
     n = len(span)
     data = [float(10 + i) for i in range(n)]
@@ -548,6 +567,10 @@ def bucket(case, obs):
 
 def shrink_candidates(case):
     op = case['op']
+    if case.get('prior'):
+        c = copy.deepcopy(case)
+        del c['prior']
+        yield c
     if 'key' in op and 'slice' in op['key']:
         for i in range(3):
             if op['key']['slice'][i] is not None:
@@ -561,7 +584,7 @@ def shrink_candidates(case):
 
 
 # --------------------------------------------------------------------------- generator
-def span_specs(nmax):
+def span_specs(nmax, monthly=False):
     """Every span type at every length 0..nmax."""
     specs = []
     strs = ['a', 'b', 'c', 'd', 'e', 'f', 'g', 'h', 'i']
@@ -583,6 +606,8 @@ def span_specs(nmax):
             specs.append({'type': 'tuple', 'labels': [['i', 7 - i] for i in range(n)]})
             specs.append({'type': 'datetime', 'freq': 'MS', 'start': TS_M0, 'n': n})
             specs.append({'type': 'list', 'labels': [['i', 3 * i] for i in range(n)][::-1]})
+        if monthly and n <= 5:
+            specs.append({'type': 'period', 'freq': 'M', 'start': PER_M0, 'n': n})
     return specs
 
 
@@ -592,11 +617,16 @@ def absent_labels(spec):
     kinds = {j[0] for j in labs}
     out = []
     if t == 'period':
-        out = [['per', spec['freq'], spec['start'] - 1], ['i', 2000], ['per', 'Q' if spec['freq'] == 'Y' else 'Y', 31]]
+        out = [['per', spec['freq'], spec['start'] - 1], ['i', 2000], ['per', 'Q' if spec['freq'] != 'Q' else 'Y', 31]]
     elif t == 'datetime':
         out = [['ts', spec['start'] + 3600 * 10 ** 9], ['i', 3]]
     elif kinds <= {'i'}:
         out = [['i', 4], ['s', 'zz'], ['f', 5.5], ['i', -1] if ['i', -1] not in labs else ['i', -77]]
+        if t == 'range':
+            # just before the start and just after the end (an arithmetic lookup must check both bounds), and between two labels
+            out = [['i', spec['start'] - spec['step']], ['i', spec['start'] + spec['step'] * spec['n']]] + out
+            if abs(spec['step']) > 1:
+                out.append(['i', spec['start'] + 1])
     else:
         out = [['s', 'zz'], ['i', 1] if ['i', 1] not in labs else ['i', 99], ['s', '']]
     return [j for j in out if lc.canon(j) not in [lc.canon(x) for x in labs]]
@@ -605,6 +635,8 @@ def absent_labels(spec):
 def partial_strings(spec):
     if spec['type'] == 'period' and spec['freq'] == 'Q':
         return [['s', '1999'], ['s', '2000'], ['s', '2000Q1'], ['s', '2001']]
+    if spec['type'] == 'period' and spec['freq'] == 'M':
+        return [['s', '1999'], ['s', '2000'], ['s', '2000-01'], ['s', '2000Q1']]
     if spec['type'] == 'period':
         return [['s', '2000'], ['s', '2001'], ['s', '1999']]
     if spec['type'] == 'datetime' and spec['freq'] == 'D':
@@ -691,10 +723,29 @@ def dup_specs():
             {'type': 'list', 'labels': [['none'], ['i', 1], ['i', 2]]}]
 
 
+def history_cases():
+    """the accesses of a span after the same labels were looked up on a sibling container where they sit at other positions"""
+    out = []
+    pairs = [({'type': 'list', 'labels': [['s', x] for x in 'abcd']}, {'type': 'list', 'labels': [['s', x] for x in 'dcba']}),
+             ({'type': 'range', 'start': 2000, 'step': 1, 'n': 4}, {'type': 'range', 'start': 1998, 'step': 1, 'n': 6}),
+             ({'type': 'nparr', 'labels': [['i', 5 + i] for i in range(4)]}, {'type': 'nparr', 'labels': [['i', 8 - i] for i in range(4)]}),
+             ({'type': 'pdindex', 'labels': [['i', 5 + 2 * i] for i in range(4)]}, {'type': 'pdindex', 'labels': [['i', 11 - 2 * i] for i in range(4)]}),
+             ({'type': 'period', 'freq': 'Q', 'start': PER_Q0, 'n': 4}, {'type': 'period', 'freq': 'Q', 'start': PER_Q0 - 2, 'n': 6})]
+    for spec, prior in pairs:
+        labs = lc.span_labels(spec)
+        for j in labs:
+            out.append({'span': spec, 'cls': 'VC', 'prior': prior, 'op': {'kind': 'get', 'key': {'label': j}}})
+            out.append({'span': spec, 'cls': 'VC', 'prior': prior, 'op': {'kind': 'set', 'key': {'label': j}, 'w': {'scalar': 99}}})
+            out.append({'span': spec, 'cls': 'VC', 'prior': prior, 'op': {'kind': 'locate', 'label': j}})
+        for a, b in itertools.product(labs, labs):
+            out.append({'span': spec, 'cls': 'VC', 'prior': prior, 'op': {'kind': 'get', 'key': {'slice': [a, b, 2]}}})
+    return out
+
+
 def gen(rng, tier):
     nvc, nbm = (6, 3) if tier == 'quick' else (8, 6)
-    cases = []
-    for spec in span_specs(nvc):
+    cases = history_cases()
+    for spec in span_specs(nvc, monthly=tier != 'quick'):
         cases += cases_for_span(spec, 'VC', rng, 1 if tier == 'quick' else 2)
     for spec in span_specs(nbm):
         cases += cases_for_span(spec, 'BM', rng, 0 if tier == 'quick' else 2)
